@@ -216,6 +216,14 @@ class VFS:
     def install(self, mod):
         mod.os = OsProxy(self)
         mod.open = self.open
+        # pathlib, however the module imported it
+        import pathlib as _pl
+        VPath, ns = make_path_class(self)
+        for name, val in list(vars(mod).items()):
+            if val is _pl:
+                setattr(mod, name, ns)
+            elif isinstance(val, type) and issubclass(val, _pl.PurePath):
+                setattr(mod, name, VPath if issubclass(val, _pl.Path) else val)
         return mod
 
 
@@ -298,8 +306,6 @@ class OsProxy:
         ab = v.abspath(path)
         isdir = ab in v.dirs and ab not in v.files
         size = 0 if isdir else v.getsize(path)
-        if not isinstance(size, int):
-            raise EngineLimit('os.stat of a file of symbolic size')
         import types
         return types.SimpleNamespace(st_mtime=mt, st_mtime_ns=int(mt * 1e9), st_ctime=mt, st_atime=mt, st_size=size,
                                      st_mode=(0o040755 if isdir else 0o100644), st_ino=abs(hash(ab)) % (1 << 31), st_dev=1)
@@ -319,3 +325,100 @@ class OsProxy:
         if name in OsProxy.PURE or (name.startswith('O_') and name.isupper()) or name.startswith('SEEK_'):
             return getattr(_os, name)
         raise EngineLimit('os.%s is not modelled by the virtual file system' % name)
+
+
+def make_path_class(vfs):
+    """pathlib.Path over the virtual tree: pure path arithmetic is pathlib's own (PurePosixPath),
+    everything that touches the file system goes to ``vfs``"""
+    import pathlib
+    import types
+
+    class VPath(pathlib.PurePosixPath):
+        __slots__ = ()
+        _v = vfs
+
+        @classmethod
+        def cwd(cls):
+            return cls(cls._v.cwd)
+
+        @classmethod
+        def home(cls):
+            raise EngineLimit('Path.home() is not modelled')
+
+        def exists(self, **k):
+            return self._v.exists(str(self))
+
+        def is_file(self):
+            return self._v.isfile(str(self))
+
+        def is_dir(self):
+            return self._v.isdir(str(self))
+
+        def is_symlink(self):
+            return False
+
+        def stat(self, **k):
+            return OsProxy(self._v).stat(str(self))
+
+        def lstat(self):
+            return self.stat()
+
+        def open(self, mode='r', *a, **k):
+            return self._v.open(str(self), mode, *a, **k)
+
+        def read_text(self, encoding=None, errors=None):
+            with self._v.open(str(self), 'r') as f:
+                return f.read()
+
+        def read_bytes(self):
+            with self._v.open(str(self), 'rb') as f:
+                return f.read()
+
+        def write_text(self, data, encoding=None, errors=None, newline=None):
+            with self._v.open(str(self), 'w') as f:
+                f.write(data)
+            return len(data)
+
+        def write_bytes(self, data):
+            with self._v.open(str(self), 'wb') as f:
+                f.write(data)
+            return sym_len_safe(data)
+
+        def resolve(self, strict=False):
+            return type(self)(self._v.abspath(str(self)))
+
+        def absolute(self):
+            p = str(self)
+            return self if posixpath.isabs(p) else type(self)(posixpath.join(self._v.cwd, p))
+
+        def expanduser(self):
+            return self
+
+        def samefile(self, other):
+            return self._v.abspath(str(self)) == self._v.abspath(str(other))
+
+        def iterdir(self):
+            for n in OsProxy(self._v).listdir(str(self)):
+                yield self / n
+
+        def unlink(self, missing_ok=False):
+            try:
+                self._v.remove(str(self))
+            except FileNotFoundError:
+                if not missing_ok:
+                    raise
+
+        def __getattr__(self, name):
+            if name.startswith('_'):
+                raise AttributeError(name)
+            raise EngineLimit('Path.%s is not modelled by the virtual file system' % name)
+
+    ns = types.SimpleNamespace(Path=VPath, PosixPath=VPath, PurePath=pathlib.PurePosixPath, PurePosixPath=pathlib.PurePosixPath)
+    return VPath, ns
+
+
+def sym_len_safe(x):
+    try:
+        return len(x)
+    except BaseException:
+        return 0
